@@ -47,7 +47,9 @@ pub fn dir_code(d: BufferDirection) -> u8 {
 }
 
 pub struct Region { pub paddr: u64, pub vaddr: usize, pub pages: usize, pub dir: u8, pub live: bool, pub ap: bool }
-pub struct Share { pub paddr: u64, pub vaddr: usize, pub len: usize, pub dir: u8, pub bounce: Vec<u8>, pub live: bool, pub ap: bool }
+/// `orig`: the driver-side bytes as they were when the buffer was handed over (after poisoning): the driver must not touch a
+/// buffer while the device owns it, so they must be the same when it is taken back
+pub struct Share { pub paddr: u64, pub vaddr: usize, pub len: usize, pub dir: u8, pub bounce: Vec<u8>, pub live: bool, pub ap: bool, pub orig: Vec<u8> }
 pub struct MmioWin { pub paddr: u64, pub size: u64, pub vbase: usize }
 
 pub struct Ledger {
@@ -62,13 +64,16 @@ pub struct Ledger {
     /// physical MMIO windows the platform is willing to map (PCI BARs): paddr -> fake vaddr
     pub mmio: Vec<MmioWin>,
     pub quarantine: Vec<(usize, usize)>,
+    /// device addresses for shares are handed out from 0 upwards whenever the bottom of the space is free (an IOMMU-style
+    /// platform: 0 is a legal device address for a shared buffer)
+    pub share_zero: bool,
 }
 
 impl Ledger {
     fn new() -> Self {
         Ledger { regions: vec![], shares: vec![], log: vec![], violations: vec![],
             next_dma: 0x4000_0000_0000, next_share: 0x5000_0000_0010, alloc_count: 0,
-            fail_alloc_at: None, mmio: vec![], quarantine: vec![] }
+            fail_alloc_at: None, mmio: vec![], quarantine: vec![], share_zero: false }
     }
 }
 
@@ -96,6 +101,7 @@ pub fn log_since(n: usize) -> Vec<Ev> { LEDGER.with(|l| l.borrow().log[n..].to_v
 pub fn violations() -> Vec<String> { LEDGER.with(|l| l.borrow().violations.clone()) }
 pub fn violate(s: String) { LEDGER.with(|l| l.borrow_mut().violations.push(s)); }
 pub fn fail_alloc_at(k: Option<usize>) { LEDGER.with(|l| { let mut l = l.borrow_mut(); l.fail_alloc_at = k; l.alloc_count = 0; }); }
+pub fn share_from_zero(on: bool) { LEDGER.with(|l| l.borrow_mut().share_zero = on); }
 pub fn live_regions() -> usize { LEDGER.with(|l| l.borrow().regions.iter().filter(|r| r.live).count()) }
 pub fn live_shares() -> usize { LEDGER.with(|l| l.borrow().shares.iter().filter(|r| r.live).count()) }
 pub fn live_share_list() -> Vec<(u64, usize, usize, u8)> {
@@ -253,9 +259,10 @@ unsafe impl Hal for LedgerHal {
                 // driver that delivers data from a buffer it has already re-posted observable (C19, C15, C16, C18).
                 unsafe { std::ptr::write_bytes(vaddr as *mut u8, 0xa5, len) };
             }
-            let paddr = l.next_share;
-            l.next_share += ((len as u64 + 15) & !15) + 16;
-            l.shares.push(Share { paddr, vaddr, len, dir, bounce, live: true, ap });
+            let span = ((len as u64 + 15) & !15) + 16;
+            let paddr = if l.share_zero && !l.shares.iter().any(|s| s.live && s.paddr < span) { 0 } else { let p = l.next_share; l.next_share += span; p };
+            let orig = unsafe { std::slice::from_raw_parts(vaddr as *const u8, len) }.to_vec();
+            l.shares.push(Share { paddr, vaddr, len, dir, bounce, live: true, ap, orig });
             l.log.push(Ev::Share { vaddr, len, dir, paddr });
             paddr
         })
@@ -268,10 +275,14 @@ unsafe impl Hal for LedgerHal {
             let vaddr = buffer.as_ptr() as *mut u8 as usize;
             let dir = dir_code(direction);
             let mut ok = false;
+            let mut touched = false;
             if let Some(s) = l.shares.iter_mut().find(|s| s.live && s.paddr == paddr) {
                 if s.vaddr == vaddr && s.len == len && s.dir == dir && s.ap == ap {
                     ok = true;
                     s.live = false;
+                    // the device owned the buffer from share to unshare: the driver must not have written to its side of it
+                    // (on a platform that shares in place such a write lands in what the device is reading or has written)
+                    if dir != 2 && unsafe { std::slice::from_raw_parts(vaddr as *const u8, len) } != &s.orig[..] { touched = true; }
                     if dir == 1 || dir == 2 {
                         unsafe { std::ptr::copy_nonoverlapping(s.bounce.as_ptr(), vaddr as *mut u8, len) };
                     }
@@ -279,6 +290,9 @@ unsafe impl Hal for LedgerHal {
             }
             if !ok {
                 l.violations.push(format!("unshare({:#x}, {:#x}+{}, dir {}, access_platform {}) does not match a live share", paddr, vaddr, len, dir, ap));
+            }
+            if touched {
+                l.violations.push(format!("the driver wrote to its side of a buffer while it was shared with the device ({:#x}+{}, dir {})", vaddr, len, dir));
             }
             l.log.push(Ev::Unshare { paddr, vaddr, len, dir, ok });
         })
